@@ -79,6 +79,11 @@ def nametable(entries):
     return C("Build_nt_pb", L([P(h, L(ips)) for h, ips in sorted(entries.items())]))
 
 
+# outlier detection (threshold, volume): every kind of single-field change between two picks is likely
+# (threshold only, volume only, to/from zero, to/from absent)
+OUTLIERS = [None, None, (10, 5), (30, 5), (10, 100), (30, 100), (100, 100), (0, 5), (50, 0), (0, 0)]
+
+
 class SysGen:
     """random histories; one PRNG; names drawn from small pools so that unsolicited names occur"""
     HOSTS = ["svc-a:80", "svc-b", "svc-c.default:8888", "SVC-A:80", "unknown-host:80"]
@@ -155,7 +160,7 @@ class SysGen:
                 res = route_config(n, st, clusters=["cl-%d" % st] + (["cl-shared"] if r.random() < 0.3 else []),
                                    retry=None if r.random() < 0.4 else retry_policy(r))
             elif rt == "cds":
-                res = cluster(n, st, eds=r.random() < 0.7, outlier=r.choice([None, (10, 5), (0, 5), (50, 0), (100, 100)]),
+                res = cluster(n, st, eds=r.random() < 0.7, outlier=r.choice(OUTLIERS),
                               inline=None if r.random() < 0.75 else endpoints(n, st, nloc=r.choice([0, 1, 2]), nep=r.choice([0, 1, 2])))
             else:
                 res = endpoints(n, st, nloc=r.choice([0, 1, 1, 2]), nep=r.choice([0, 1, 2]))
